@@ -363,9 +363,16 @@ pub fn gen_sim_scenario(seed: u64, case: u64, only: Option<&str>, heavy_reorder:
         }
         "vanish_blackhole" => {
             vanish = VanishKind::Blackhole;
+            // the peer disappears while the stream has holes: some packets were lost before
+            if rng.chance(1, 2) {
+                net.loss_ppm = *rng.pick(&[10_000u32, 50_000, 150_000]);
+            }
         }
         "vanish_server_mute" => {
             vanish = VanishKind::ServerMute;
+            if rng.chance(1, 2) {
+                net.loss_ppm = *rng.pick(&[10_000u32, 50_000, 150_000]);
+            }
         }
         _ => {
             vanish = VanishKind::DropState;
